@@ -28,13 +28,20 @@ def run(ctx, rep, tier):
     kmax = 2 if tier == "quick" else 3
     samples = []
     B.validate_parse(["-name 'a\"b'", "-name 'a\\b'", "-printf 'a~b\\n'", "-pool 'p\"'", "-printf '%A\"'"] + validation_corpus(ctx, seed=rep.seed, n_random=5)[:30])
+    # longer strings at a few sites: multi-character tokens (template markers and the like) need room to form
+    LONG = {"matcher:-name": (5,), "pool": (5,), "format-literal": (5,), "xattr-match:value": (5,)} if tier == "quick" else \
+           {"matcher:-name": (4, 5, 6), "pool": (4, 5, 6), "format-literal": (4, 5, 6), "format-literal-file": (5,), "xattr-match:value": (5, 6),
+            "matcher-framed:-name": (5,), "xattr": (5,)}
     for site, (pre, post) in SITES:
-        for k in range(1, kmax + 1):
+        for k in list(range(1, kmax + 1)) + list(LONG.get(site, ())):
             if site == "strftime-selector" and k > 1:
                 continue
             us = [sym_char() for _ in range(k)]
             spec = [pre] + us + [post]
             extra = [u != 39 for u in us]
+            if k > kmax and site.startswith("format"):
+                # long literal text: directive / escape introducers are covered by the short strings
+                extra += [z3.And(u != 37, u != 92) for u in us]
             meant_char = None
             if site == "format-escape":
                 # three octal digits: the character the user means is the one with that code
@@ -45,7 +52,7 @@ def run(ctx, rep, tier):
                 extra = [z3.And(z3.UGE(u, 48), z3.ULE(u, 55)) for u in us]
                 meant_char = (us[0] - 48) * 64 + (us[1] - 48) * 8 + (us[2] - 48)
             r = B.parse(spec, extra_assume=extra)
-            bad_total, beyond_total, reach = False, False, False
+            bad_total, beyond_total, reach, lost_total = False, False, False, False
             witness_info = None
             n_prog = 0
             for g, v in r.alts:
@@ -61,27 +68,29 @@ def run(ctx, rep, tier):
                             continue
                         for g3, ce in flatten_value(cv.fields[0]):
                             g_all = b_and(gg, g2, g3)
-                            items = render(B, cr, ce)
-                            n_prog += 1
-                            if meant_char is not None:
-                                # the emitted character terms are whatever symbolic items the template holds
-                                emitted = [it for it in items if is_sym(it)]
-                                a = analyze(items, emitted, {t.get_id(): meant_char for t in emitted})
-                            else:
-                                a = analyze(items, us)
-                            reach = b_or(reach, g_all)
-                            if a["error"]:
-                                bad_total = b_or(bad_total, g_all)
-                                witness_info = a["error"]
-                            else:
-                                if a["forms"] != 2:
-                                    bad_total = b_or(bad_total, g_all)
-                                    witness_info = "%d top-level forms" % a["forms"]
-                                if a["missing"] and not (site.startswith("format") or site in ("strftime-selector", "xattr-directive")):
-                                    bad_total = b_or(bad_total, g_all)
-                                    witness_info = "user characters do not reach any string literal"
-                                bad_total = b_or(bad_total, b_and(g_all, a["bad"]))
-                                beyond_total = b_or(beyond_total, b_and(g_all, a["bad_beyond"]))
+                            for g4, items in render_alts(B, cr, ce):
+                              g_all = b_and(gg, g2, g3, g4)
+                              n_prog += 1
+                              if meant_char is not None:
+                                  # the emitted character terms are whatever symbolic items the template holds
+                                  emitted = [it for it in items if is_sym(it)]
+                                  a = analyze(items, emitted, {t.get_id(): meant_char for t in emitted})
+                              else:
+                                  a = analyze(items, us)
+                              reach = b_or(reach, g_all)
+                              if a["error"]:
+                                  bad_total = b_or(bad_total, g_all)
+                                  witness_info = a["error"]
+                              else:
+                                  if a["forms"] != 2:
+                                      bad_total = b_or(bad_total, g_all)
+                                      witness_info = "%d top-level forms" % a["forms"]
+                                  if a["missing"] and not (site.startswith("format") or site in ("strftime-selector", "xattr-directive")):
+                                      bad_total = b_or(bad_total, g_all)
+                                      lost_total = b_or(lost_total, g_all)
+                                      witness_info = "user characters do not reach any string literal"
+                                  bad_total = b_or(bad_total, b_and(g_all, a["bad"]))
+                                  beyond_total = b_or(beyond_total, b_and(g_all, a["bad_beyond"]))
             tag = "%s:k%d" % (site, k)
             res0, _ = B.solve(tag + ":reach", r.assume, reach)
             if res0 != z3.sat:
@@ -91,6 +100,17 @@ def run(ctx, rep, tier):
             if res == z3.sat:
                 text = model_string(m, spec)
                 confirm(B, rep, known, site, text, us, m, spec)
+            # its own query, so that a known missing-escaping finding at the same site cannot mask it
+            res3, m3 = B.solve(tag + ":user-text-reaches-a-literal", r.assume, lost_total)
+            if res3 == z3.sat:
+                text = model_string(m3, spec)
+                user = "".join(chr(model_char(m3, u)) for u in us)
+                d = B.ctx.run_native([text], "debug")[0]
+                if user in d.get("scheme", ""):
+                    rep.inconclusive.append("witness %r for lost user text at site %s does not reproduce natively" % (text, site))
+                else:
+                    rep.violation("user-text-lost:" + site.split(":")[0], "the user string %r of %r does not appear in the emitted program (site %s)" % (user, text, site),
+                                  dict(input=text, native_scheme=d.get("scheme", "")[-400:]))
             # beyond plain missing escaping: a character that is not itself special must never be read as syntax
             res2, m2 = B.solve(tag + ":no-new-special-characters", r.assume, beyond_total)
             if res2 == z3.sat:
@@ -102,7 +122,7 @@ def run(ctx, rep, tier):
     cov.update(explanation="for each of %d interpolation sites and each length 1..%d, parse() then compile/scheme() are executed from MIR "
                "with the user string symbolic (any code point the quoting style can deliver); the rope is read back and z3 decides whether "
                "some value of the user characters is read as anything but data (quote, backslash, format tilde, code position)" % (len(SITES), kmax),
-               bounds=dict(user_string_len=kmax, sites=[s for s, _ in SITES]), samples=samples,
+               bounds=dict(user_string_len=kmax, longer_strings_at={k_: list(v_) for k_, v_ in LONG.items()}, sites=[s for s, _ in SITES]), samples=samples,
                outside="file names in open-file (plain-mode file printers are unreachable through compile); device path (C20); longer strings",
                evaluations=len(rep.queries), distinct_nontrivial=len(rep.queries))
     rep.coverage = cov
